@@ -102,7 +102,7 @@ def _ann(a):
 
 
 _LINE = re.compile(r'^(?P<file>[^:]+):(?P<line>\d+): (?P<kind>error|info|warning): (?P<msg>.*)$')
-_CALL = re.compile(r'when calling (?:cond|reach)\((?P<args>.*?)\)(?: \(which (?:returns|raises) [^()]*(?:\([^()]*\))?[^()]*\))?\s*$', re.S)
+_CALL = re.compile(r'when calling (?:cond|reach)\((?P<args>.*?)\)(?: with crosshair\.patch_to_return\(.*?\)\))?(?: \(which (?:returns|raises) [^()]*(?:\([^()]*\))?[^()]*\))?\s*$', re.S)
 
 
 _VP_HASH = None
